@@ -345,7 +345,7 @@ fn program() -> ProgramData {
 }
 
 /// instance states reached by driving real instances
-fn real_states() -> Vec<(String, ObservableInstanceState, Vec<String>)> {
+fn real_states(tier: Tier) -> Vec<(String, ObservableInstanceState, Vec<String>)> {
     let mut out = vec![];
     let mut add = |name: &str, spec: NodeSpec, script: &dyn Fn(&mut Node<'_, RecFilter>)| {
         let r = with_node::<RecFilter, _>(&spec, |_| RecCfg(Default::default(), false), |node| {
@@ -378,6 +378,46 @@ fn real_states() -> Vec<(String, ObservableInstanceState, Vec<String>)> {
             a.accuracy = 0x17 + flags % 0x1b;
             let _ = announce_twice_and_bmca(n, 0, &mut a);
             let _ = receipt_timeout(n, 1);
+        });
+    }
+    // one attribute at a time through its whole octet range (quick: boundary values), once as
+    // the parent's announced grandmaster data on a real slave, once as the instance's own data
+    let octets: Vec<u8> = if tier == Tier::Thorough { (0..=255).collect() } else { vec![0, 1, 6, 7, 0x17, 0x20, 0x31, 0x32, 0x7f, 0x80, 0xa0, 0xfd, 0xfe, 0xff] };
+    for field in 0..6usize {
+        for &v in &octets {
+            add(&format!("slave-parent-field{field}-{v:#x}"), two(false), &|n| {
+                let mut a = Peer::gm(1, 1);
+                a.steps_removed = 1;
+                match field {
+                    0 => a.priority1 = v.min(127), // must stay better than the instance
+                    1 => a.class = v,
+                    2 => a.accuracy = v,
+                    3 => a.variance = (v as u16) << 8 | v as u16,
+                    4 => a.priority2 = v,
+                    _ => a.time_source = v,
+                }
+                let _ = announce_twice_and_bmca(n, 0, &mut a);
+            });
+            let mut own = two(false);
+            match field {
+                0 => own.priority_1 = v,
+                1 => own.class = v,
+                2 => own.accuracy = v,
+                3 => own.variance = (v as u16) << 8 | v as u16,
+                4 => own.priority_2 = v,
+                _ => own.domain = v,
+            }
+            add(&format!("own-field{field}-{v:#x}"), own, &|n| {
+                let _ = receipt_timeout(n, 0);
+                let _ = n.bmca();
+            });
+        }
+    }
+    for steps in [0u16, 1, 2, 253, 254] {
+        add(&format!("slave-steps-{steps}"), two(false), &|n| {
+            let mut a = Peer::gm(1, 1);
+            a.steps_removed = steps;
+            let _ = announce_twice_and_bmca(n, 0, &mut a);
         });
     }
     add("passive", { let mut n = two(false); n.class = 6; n }, &|n| {
@@ -492,7 +532,7 @@ pub fn run(tier: Tier) -> i32 {
     let mut distinct = std::collections::BTreeSet::new();
     let mut viols: BTreeMap<String, Violation> = BTreeMap::new();
     let mut samples = vec![];
-    let reals = real_states();
+    let reals = real_states(tier);
     let mut all: Vec<(String, ObservableInstanceState)> = vec![];
     for (name, o, bad) in &reals {
         for b in bad {
@@ -592,7 +632,7 @@ pub fn run(tier: Tier) -> i32 {
     rep.violations(viols.into_values());
     rep.cover("evaluations", json!(evals));
     rep.cover("distinct_nontrivial", json!(distinct.len()));
-    rep.cover("rule", json!("instance states from real instances (fresh, grandmaster, slave under all 64 time-property flag combinations, passive, faulty P2P, measured link delay, path traces of 0..128 entries) plus a value lattice on a base state (offset/delay magnitudes around the 2^63/2^64 fixed-point limits, time properties, every port state x mean link delays x E2E/P2P order, booleans), each through getters -> JSON -> unix socket -> the real exporter binary -> HTTP; non-trivial = distinct JSON documents served"));
+    rep.cover("rule", json!("instance states from real instances (fresh, grandmaster, slave under all 64 time-property flag combinations, every octet value (quick: boundary values) of each announced grandmaster attribute and of each own attribute, stepsRemoved 0..254, passive, faulty P2P, measured link delay, path traces of 0..128 entries) plus a value lattice on a base state (offset/delay magnitudes around the 2^63/2^64 fixed-point limits, time properties, every port state x mean link delays x E2E/P2P order, booleans), each through getters -> JSON -> unix socket -> the real exporter binary -> HTTP; non-trivial = distinct JSON documents served"));
     rep.cover("samples", json!(samples));
     rep.cover("exhaustive", json!(true));
     rep.assume("expected metric values follow each metric's own HELP text and unit suffix: booleans true = 1, *_nanoseconds in nanoseconds, upcoming_leap = length of the last minute (59/60/61), port_state = IEEE 1588 portState enumeration value");
